@@ -1,4 +1,48 @@
-"""C06 — not built yet."""
+"""C06 — constants and default values in Go equal the values written in the IDL (DESIGN.md §5.6)."""
+import json, os
+from vlib import core
+
+THEOREMS = ["Props.C06." + t for t in []]
+
 def run(ctx):
-    print("C06: no check built yet")
-    return 2
+    exe = ctx.go_build("c06")
+    ctx.trusted += ["translator harness/cmd/c06 extract",
+                    "correspondence: generated code compiled in one batch (harness/internal/batch), constants dumped through a generated accessor file, vs tv_c06",
+                    "input of the model: thriftgo's own front end (parser + semantic) run in process on the generated IDL",
+                    "oracle: the value the IDL generator (harness/internal/idlgen) means by every initializer it writes"]
+    ctx.assumptions += ["fmt.Sprint(float64) followed by the Go compiler's constant conversion gives back the float64 (text passed through, value checked by the compiled batch)",
+                        "Go's interpreted string literals as modelled by Gen.Defaults.goUnquote (tied to strconv.Unquote by the literal suite)",
+                        "Go identifiers resolve to the declaration they were generated for (naming is C05's subject)",
+                        "Go reflect in the driver"]
+    if exe:
+        rc, gen = core.sh([exe, "extract", "-repo", core.REPO])
+        ctx.obligation("translator:c06-extract", rc == 0, gen[-2000:] if rc else "")
+        if rc == 0:
+            ctx.write_generated("C06", gen)
+    built = ctx.lake_build(["ThriftVerif.Props.C06"], "lake-build:Props.C06")
+    drv = ctx.lake_build(["tv_c06"], "lake-build:tv_c06")
+    if built:
+        ctx.audit("C06", THEOREMS)
+        if ctx.tier == "thorough":
+            ctx.leanchecker(["ThriftVerif.Props.C06"])
+    if exe:
+        args = [exe, "run", "-repo", core.REPO, "-dir", ctx.work, "-seed", str(ctx.seed), "-tier", ctx.tier]
+        if ctx.replay:
+            args = [exe, "replay", "-repo", core.REPO, "-dir", ctx.work, "-seed", str(ctx.seed), "-tier", ctx.tier, "-file", ctx.replay]
+        rc, out = core.sh(args, timeout=3400)
+        print(out[-3000:])
+        if rc not in (0, 1) or not os.path.exists(os.path.join(ctx.work, "stats.json")):
+            raise core.MachineryError("c06 run failed: " + out[-3000:])
+        st = json.load(open(os.path.join(ctx.work, "stats.json")))
+        ctx.cov.update(evaluations=st["evaluations"], distinct_nontrivial=st["distinct_nontrivial"], samples=st["samples"] or [],
+                       distribution=st["distribution"], programs=sum(v for k, v in st["distribution"].items() if k.startswith("unit.options.")))
+        for f in (st.get("oracle_failures") or []):
+            ctx.add_violation(f["key"], f["what"], f["input"], f["expected"], f["observed"])
+        if drv:
+            ops = os.path.join(ctx.work, "ops.txt")
+            model = ctx.run_model("tv_c06", ops)
+            ctx.diff_lines("c06:Gen.Defaults-vs-thriftgo", ops, os.path.join(ctx.work, "impl.txt"), model)
+            if not ctx.cov.get("samples"):
+                ctx.cov["samples"] = [l for l in open(ops).read().split("\n") if l.startswith(("K ", "KT ", "G "))][:6]
+    return ctx.finish(rule="(program, option set, constant | struct | object | initialiser text | literal) cases from the seeded generators; "
+                           "schema/environment lines are trivial, every op line is non-trivial; distinct by sha256 of the op line")
